@@ -5,7 +5,7 @@ Require GenProofs_FrameMeas.
 Require Pauli Sem Uniform RefFold Loops.
 Require Import Stab Act Spec SpecProofs GF2 Gen_GateTable Gen_Frame GenProofs_Frame.
 Require GenProofs_TabMeas.
-Require Run FrameRun FrameComplete RunComplete FrameProg FrameUniform Collapse Refine.
+Require Run FrameRun FrameComplete RunComplete FrameProg FrameUniform ProgRuns Collapse Refine.
 
 (* (1) Tie G: every unitary FrameSimulator routine (translated from frame_simulator.inl) equals the documented gate action
        with the sign dropped, on frames of any size and any target list; every fixed unitary of the table is dispatched
@@ -204,3 +204,12 @@ Theorem C02_sampler_record_is_reference_xor_flips :
 Proof. exact FrameUniform.fprun_results. Qed.
 Print Assumptions C02_flips_are_linear_in_the_randomisation. Print Assumptions C02_every_reachable_record_is_equally_likely.
 Print Assumptions C02_sampler_record_is_reference_xor_flips.
+
+(* non-vacuity of the program-level theorems: every well-formed adaptive program has a reference run, under any external bits *)
+Theorem C02_every_program_has_a_reference_run :
+  forall (n : nat) (c : bool) (ext : nat -> bool) (prog : list FrameProg.pop) (rec : list bool)
+         (s : (Pauli.pauli -> Pauli.pauli) * (Pauli.pauli -> Pauli.pauli)),
+  Forall (FrameProg.okp n) prog -> Run.good n (fst s) (snd s) ->
+  exists l s', FrameProg.realize ext rec prog l /\ Run.sim_run n s l s' /\ Run.good n (fst s') (snd s').
+Proof. exact ProgRuns.prog_run_exists. Qed.
+Print Assumptions C02_every_program_has_a_reference_run.
